@@ -20,7 +20,8 @@ PROPS = {
         part("aggmap", "stack", "TestVerifC06Agg", variant="mapchoice"),
         part("plain", "stack", "TestVerifC06"),
         part("history", "stack", "TestVerifC06History"),
-        part("processes", "stack", "TestVerifC06Processes")]},
+        part("processes", "stack", "TestVerifC06Processes"),
+        part("optsreuse", "stack", "TestVerifC06OptsReuse")]},
     "C07": {"level": "model_checking", "parts": [part("bfs", "stack", "TestVerifC07"), part("streams", "stack", "TestVerifC07"),
                                                  part("cli", "internal", "TestVerifC07CLI", needs_pp=True)]},
     "C08": {"level": "exploration", "parts": [part("race", "stack", "TestVerifC08")]},
